@@ -1,7 +1,7 @@
 """C07 Stored recordings round-trip through every cassette."""
 from ..storebind import StoreCheck, consts, METAS_SMALL, CONFIGS, replay_file
 
-CATS = {'roundtrip', 'unknown', 'save'}
+CATS = {'roundtrip', 'unknown', 'save', 'aliasing'}   # aliasing: a later fetch is not 'as saved' because an earlier fetch was edited
 
 
 def run(rep, tier, seed):
@@ -16,16 +16,16 @@ def run(rep, tier, seed):
                 'event sequence (values vary with the seed)')
     rep.assumptions = ['value fidelity is sampled (encode/decode dimension); the protocol is exhaustive within the bounds',
                        'values in the serializer\'s faithful domain: every pool value round-trips alone and nested one level']
-    chk = StoreCheck(rep, tier, seed, CATS, ['get', 'getmeta', 'unknown'])
+    chk = StoreCheck(rep, tier, seed, CATS, ['get', 'getmeta', 'unknown', 'mutate'])
     try:
         if tier == 'quick':
-            ex = chk.run_config('hist', consts(Cats=['A', 'AB'], Metas=METAS_SMALL[:2], Ops=['get', 'getmeta', 'unknown'],
+            ex = chk.run_config('hist', consts(Cats=['A', 'AB'], Metas=METAS_SMALL[:2], Ops=['get', 'getmeta', 'unknown', 'mutate'],
                                                MaxSaves=2, MaxQueries=2), cap=30000, rich=True)
             chk.run_config('hist3', consts(Cats=['A'], Metas=METAS_SMALL[2:3], Ops=['get', 'getmeta'], MaxSaves=3, MaxQueries=2,
                                            Probes=[False, True]),
                            cap=5000, rich=True)
         else:
-            ex = chk.run_config('hist', consts(Cats=['A', 'AB', 'A_B'], Metas=METAS_SMALL[:3], Ops=['get', 'getmeta', 'unknown'],
+            ex = chk.run_config('hist', consts(Cats=['A', 'AB', 'A_B'], Metas=METAS_SMALL[:3], Ops=['get', 'getmeta', 'unknown', 'mutate'],
                                                MaxSaves=2, MaxQueries=2), cap=300000, rich=True, n_seeds=3)
             chk.run_config('hist4', consts(Cats=['A', 'AB'], Metas=METAS_SMALL[2:3], Ops=['get', 'getmeta', 'unknown'],
                                            MaxSaves=4, MaxQueries=2), cap=100000, rich=True, n_seeds=2)
